@@ -419,6 +419,65 @@ Section WithH.
           end
     end.
 
+  (* ---------------------------------------------------------------- resolveWritePath *)
+  (* filepath.Clean on a relative slash-separated name (lexical): empty and "."
+     segments vanish, ".." removes the previous segment or counts as a leading "..".
+     resolveWritePath (AllowPathTraversalOnWrite = false) refuses a name whose cleaned
+     form leaves the working directory.  Absolute names are refused as well: the
+     harness only generates absolute names outside its working directory. *)
+  Fixpoint split_slash (s cur : str) : list str :=
+    match s with
+    | [] => [rev cur]
+    | c :: s' => if (c =? 47)%N then rev cur :: split_slash s' [] else split_slash s' (c :: cur)
+    end.
+
+  Fixpoint lexclean (segs : list str) (ups : nat) (st : list str) : nat * list str :=
+    match segs with
+    | [] => (ups, rev st)
+    | seg :: r =>
+        match seg with
+        | [] => lexclean r ups st
+        | [46%N] => lexclean r ups st
+        | [46%N; 46%N] => match st with
+                          | _ :: st' => lexclean r ups st'
+                          | [] => lexclean r (S ups) []
+                          end
+        | _ => lexclean r ups (seg :: st)
+        end
+    end.
+
+  Fixpoint join_slash (ns : list str) : str :=
+    match ns with
+    | [] => []
+    | [n] => n
+    | n :: r => n ++ [47%N] ++ join_slash r
+    end.
+
+  (* the path, relative to the working directory, a name is written to; None = refused *)
+  Definition resolve_name (name : str) : option str :=
+    match name with
+    | 47%N :: _ => None
+    | _ =>
+        match lexclean (split_slash name []) 0 [] with
+        | (O, []) => Some [46%N]
+        | (O, ns) => Some (join_slash ns)
+        | (S _, _) => None
+        end
+    end.
+
+  (* Store.push for a name: duplicate-name check, resolveWritePath, pushFile *)
+  Definition file_push_name (fuel : nat) (s : fstore) (name : str) (d : desc) (evs : list ev)
+    : option rerr * fstore :=
+    match name with
+    | [] => file_push fuel s [] [] d evs
+    | _ =>
+        if name_in name (f_names s) then (Some EDupName, s)
+        else match resolve_name name with
+             | None => (Some ETraversal, s)
+             | Some path => file_push fuel s name path d evs
+             end
+    end.
+
   Definition file_exists (s : fstore) (name : str) (d : desc) : bool :=
     match name with
     | [] => match assoc_get (f_d2p s) (d_dg d) with
@@ -494,8 +553,19 @@ Section Histories.
   Inductive file_reach : fstore -> Prop :=
   | file_reach_nil : file_reach (mkFs [] [] [] [])
   | file_reach_push comb fuel s name path d evs e s' :
-      file_reach s -> path_free s path ->
+      file_reach s -> (name <> [] -> path_free s path) ->
       file_push H comb true fuel s name path d evs = (e, s') -> file_reach s'.
+
+  (* histories of the file store given by names only: no pushed name resolves to the
+     path of another name that is already in use *)
+  Definition no_alias (s : fstore) (name : str) : Prop :=
+    forall n, name_in n (f_names s) = true -> resolve_name n = resolve_name name -> n = name.
+
+  Inductive file_reach_names : fstore -> Prop :=
+  | file_reach_names_nil : file_reach_names (mkFs [] [] [] [])
+  | file_reach_names_push comb fuel s name d evs e s' :
+      file_reach_names s -> no_alias s name ->
+      file_push_name H comb true fuel s name d evs = (e, s') -> file_reach_names s'.
 
   (* ---------------------------------------------------------------- concurrent pushes into one OCI layout *)
   (* Each push is a thread: Stat, CreateTemp, a sequence of Writes to its own
